@@ -13,6 +13,8 @@ R15.4  the sanitizers that are trusted in CODE positions (sanitize_method_name /
        valid identifiers for every input string                                              [abstract interpretation shared with C20]
 R15.6  a plain value emitted as whole line(s) (write_line / write_block of a local, a call, a conditional) carries no spec text that
        bypassed every sanitizer on some way into it
+R15.7  the line scanners that cut Protocol stubs / mock methods out of a rendered method end at the implementation signature: no docstring
+       line (spec text) is ever tested for looking like code
 R15.5  json.dumps() used as a Python-literal maker for spec text passes ensure_ascii=False (non-BMP characters survive)
 R15.3  emitted code is never re-split with str.splitlines() outside docstring/comment assembly (splitlines also splits at
        U+2028, U+0085, FF, VT ..., which Python's tokenizer does not treat as line ends)
@@ -805,6 +807,7 @@ def run(repo: Repo, rep: Report, tier: str) -> None:
                                       f"generated code ({code_src}: `{recv[:40]}`) is re-split with str.splitlines(): it also splits at U+2028/U+2029/U+0085/FF/VT/FS-RS, which the "
                                       "Python tokenizer does not treat as line ends, so text inside a comment or string literal can become code", fn.loc(c))
     rep.count("R15.3:splitlines_sites", n_sl)
+    rule_scanner_stops_at_signature(repo, rep, "R15.7")
 
 
 def _sanitized_for(st: LexState, esc: Set[str], hole: ast.AST) -> Tuple[bool, str]:
@@ -905,3 +908,78 @@ class _Relabel:
 
     def count(self, *a, **k):
         pass
+
+
+# ------------------------------------------------------------------------------------------------ R15.7 the line scanners over rendered methods stop at the signature
+def rule_scanner_stops_at_signature(repo: Repo, rep, rule: str = "R15.7") -> None:
+    """Protocol stubs and mock methods are cut out of the text EndpointMethodGenerator renders, by scanning it line by line for lines that
+    *look like* code (`@overload`, `async def ...(`).  Everything after the implementation's signature is the docstring - spec text - and the
+    body.  The scan is sound only because it ends there: once something has been written for the implementation signature, every way back
+    to the head of the scanning loop sets the index to `len(lines)` (or leaves the loop).  A scan that merely steps on would take a
+    description line `async def drop_all(...):` for a method and emit a stub for it."""
+    from sa.cfg import CFG, guards
+
+    sites = [("Protocol stubs", "visit.endpoint.endpoint_visitor:EndpointVisitor.generate_endpoint_protocol"),
+             ("mock methods", "visit.endpoint.generators.mock_generator:MockGenerator._transform_to_mock")]
+    n_ok = 0
+    for label, spec in sites:
+        fn0 = repo.func(spec)
+
+        def body(fn, r, label=label):
+            nonlocal n_ok
+            L = Locals(fn.node)
+            cfg = CFG(fn.node)
+            dom = cfg.dominators()
+            # the scanning loop: the outermost `while <i> < len(<lines>)` whose <lines> is a split of rendered code
+            whiles = [w for w in own_nodes(fn.node) if isinstance(w, ast.While) and isinstance(w.test, ast.Compare) and len(w.test.ops) == 1 and isinstance(w.test.ops[0], ast.Lt)
+                      and isinstance(w.test.left, ast.Name) and isinstance(w.test.comparators[0], ast.Call) and dotted(w.test.comparators[0].func) == "len"
+                      and w.test.comparators[0].args and isinstance(w.test.comparators[0].args[0], ast.Name)]
+            outer = [w for w in whiles if not any(w is not o and any(x is w for x in ast.walk(o)) for o in whiles)]
+            if not outer:
+                # a `for` scan cannot step back: leaving the signature branch with `break` / `return` is the only way on
+                fors = [f_ for f_ in own_nodes(fn.node) if isinstance(f_, ast.For) and any(isinstance(c, ast.Call) and isinstance(c.func, ast.Attribute) and c.func.attr == "startswith"
+                                                                                              and c.args and (const_str(c.args[0]) or "").startswith("async def") for c in ast.walk(f_))]
+                if fors:
+                    raise AnalysisError(f"{rule}: {fn.qualname} scans the rendered method with a `for` loop - the stop condition of this form is not modelled")
+                raise AnalysisError(f"{rule}: the line-scanning loop (`while i < len(lines)`) of {fn.qualname} was not found (anchor)")
+            w = outer[0]
+            idx, lines = w.test.left.id, w.test.comparators[0].args[0].id
+            heads = [n.id for n in cfg.nodes if n.kind == "test" and n.stmt is w]
+            if not heads:
+                raise AnalysisError(f"{rule}: CFG node of the scanning loop of {fn.qualname} not found")
+            # statements that end the scan: `i = len(lines)`
+            ends = {n.id for n in cfg.nodes if n.kind == "stmt" and isinstance(n.ast, ast.Assign) and len(n.ast.targets) == 1 and isinstance(n.ast.targets[0], ast.Name)
+                    and n.ast.targets[0].id == idx and isinstance(n.ast.value, ast.Call) and dotted(n.ast.value.func) == "len" and n.ast.value.args
+                    and isinstance(n.ast.value.args[0], ast.Name) and n.ast.value.args[0].id == lines}
+            # emissions made for the implementation signature: write_line calls under a positive `startswith("async def ")` test
+            starts = []
+            for n in cfg.nodes:
+                if n.kind != "stmt" or n.ast is None or n.copy or not any(isinstance(c.func, ast.Attribute) and c.func.attr == "write_line" for c in calls_in(n.ast)):
+                    continue
+                for g, pol in guards(cfg, n.id, dom):
+                    if g.kind == "test" and pol is True and any(isinstance(c, ast.Call) and isinstance(c.func, ast.Attribute) and c.func.attr == "startswith" and c.args
+                                                               and (const_str(c.args[0]) or "").startswith(("async def", "def ")) for c in ast.walk(L.inline(g.ast, stop=tuple(L.params)))):
+                        starts.append(n)
+                        break
+            if not starts:
+                raise AnalysisError(f"{rule}: nothing is written under a `startswith('async def ')` test in {fn.qualname} (anchor)")
+            wit = None
+            for s_ in starts:
+                p_ = cfg.must_pass(s_.id, ends, set(heads))
+                if p_ is not None:
+                    wit = (s_, p_)
+                    break
+            sub = f"{fn.module.relpath}:{fn.qualname} scan of the rendered method ends at the implementation signature"
+            if wit is None:
+                n_ok += 1
+                r.ok(rule, sub, f"{len(starts)} emission(s) for the signature: every way back to `while {idx} < len({lines})` passes `{idx} = len({lines})`", fn.loc(w))
+            else:
+                r.violation(rule, sub, f"{fn.fq}|scan-continues-into-docstring",
+                            f"after the {label} signature has been written the scan can go on with the next line ({cfg.describe_path(wit[1])[:160]}): the lines that follow are the "
+                            "docstring, i.e. spec text - a description line that starts with `async def ` and contains `(` is copied into the generated class as a method",
+                            fn.loc(wit[0].ast))
+
+        from sa.report import with_flatten_fallback
+
+        with_flatten_fallback(rep, fn0, body)
+    rep.count(f"{rule}:scanners", len(sites))
